@@ -595,19 +595,10 @@ func AccessPath(v ssa.Value) Access {
 			continue
 		case *ssa.UnOp:
 			if x.Op == token.MUL {
-				// a load that Resolve could not look through
-				switch x.X.(type) {
-				case *ssa.FieldAddr, *ssa.FreeVar, *ssa.Alloc:
-					inner := Resolve(x.X)
-					if inner != x.X || isFieldAddr(x.X) {
-						v = x.X
-						if fa, ok := x.X.(*ssa.FieldAddr); ok {
-							fields = append([]string{fieldName(fa.X.Type(), fa.Field)}, fields...)
-							v = fa.X
-						}
-						continue
-					}
-				}
+				// a load that Resolve could not look through: dereferencing
+				// selects no field, the path continues with the address
+				v = x.X
+				continue
 			}
 		}
 		break
